@@ -7,6 +7,7 @@ package sarama
 // everything is drawn up front by rapid, so a run is a function of the case.
 
 import (
+	"fmt"
 	"runtime"
 	"runtime/debug"
 	"strings"
@@ -122,4 +123,96 @@ func vfShortStack() string {
 		st = st[:2500]
 	}
 	return st
+}
+
+// vfC12Ctl asks an engine to end its scenario early: after the CloseAt-th observable event (simulator events of every
+// kind + hook hits) the feeders stop and the component is closed in the documented order; at the UnreachAt-th event the
+// whole cluster becomes unreachable (brokers refuse connections and drop the open ones, or fall silent).
+type vfC12Ctl struct {
+	CloseAt     int64  `json:"closeAt"`
+	UnreachAt   int64  `json:"unreachAt,omitempty"`
+	UnreachKind string `json:"unreachKind,omitempty"` // refuse | silent
+	DoubleClose bool   `json:"doubleClose,omitempty"`
+}
+
+type vfStopper struct {
+	ctl     *vfC12Ctl
+	sim     *vfSim
+	ch      chan struct{}
+	done    chan struct{}
+	fired   int32
+	atClose string
+}
+
+func vfEventCount(sim *vfSim) int64 {
+	n := atomic.LoadInt64(&sim.hist.seq)
+	if st, ok := vfHooks.Load().(*vfHookState); ok && st != nil {
+		n += st.hits()
+	}
+	return n
+}
+
+func newVfStopper(ctl *vfC12Ctl, sim *vfSim) *vfStopper {
+	s := &vfStopper{ctl: ctl, sim: sim, ch: make(chan struct{}), done: make(chan struct{})}
+	if ctl == nil || (ctl.CloseAt <= 0 && ctl.UnreachAt <= 0) {
+		return s
+	}
+	go func() {
+		unreached := ctl.UnreachAt <= 0
+		for {
+			select {
+			case <-s.done:
+				return
+			default:
+			}
+			n := vfEventCount(sim)
+			if !unreached && n >= ctl.UnreachAt {
+				unreached = true
+				sim.makeUnreachable(ctl.UnreachKind)
+			}
+			if ctl.CloseAt > 0 && n >= ctl.CloseAt {
+				s.atClose = fmt.Sprintf("pending=%d held=%d", atomic.LoadInt64(&sim.pending), atomic.LoadInt64(&sim.held))
+				atomic.StoreInt32(&s.fired, 1)
+				close(s.ch)
+				if unreached {
+					return
+				}
+				ctl = &vfC12Ctl{UnreachAt: ctl.UnreachAt, UnreachKind: ctl.UnreachKind}
+			}
+			time.Sleep(20 * time.Microsecond)
+		}
+	}()
+	return s
+}
+
+func (s *vfStopper) stopped() bool { return s != nil && atomic.LoadInt32(&s.fired) == 1 }
+func (s *vfStopper) finish() {
+	if s != nil {
+		select {
+		case <-s.done:
+		default:
+			close(s.done)
+		}
+	}
+}
+
+// vfWaitQuiescent waits until done() holds. It gives up (false) only under the quiescence rule: nothing is pending in
+// the simulator and the relevant-event counter (which includes swallowed requests and refused dials, i.e. a client
+// working through its timeouts) has not moved for Tq; or after an absolute cap of 120 s.
+func vfWaitQuiescent(sim *vfSim, done func() bool) bool {
+	tq := vfTq()
+	last := int64(-1)
+	lastChange := time.Now()
+	start := time.Now()
+	for !done() {
+		p := sim.hist.progress()
+		if p != last || atomic.LoadInt64(&sim.pending) > 0 {
+			last, lastChange = p, time.Now()
+		}
+		if time.Since(lastChange) > tq || time.Since(start) > 120*time.Second {
+			return false
+		}
+		time.Sleep(300 * time.Microsecond)
+	}
+	return true
 }
